@@ -149,6 +149,20 @@ def model_check(rep, jobs, expect_ok=True):
                 f'{module}/{cfg}: actions never taken: {zero}')
 
 
+def model_refutes(rep, module, cfg, expected, timeout=900):
+    """The faulty variant `cfg` of the model must violate one of the
+    properties `expected` (otherwise the property is vacuous: machinery
+    failure)."""
+    res = common.run_tlc(module, cfg, timeout=timeout, name=cfg,
+                         coverage=False)
+    if not (set(res.violated) & set(expected)):
+        raise common.MachineryError(
+            f'{module}/{cfg}: expected a violation of one of {expected}, '
+            f'TLC reports {res.violated or "none"} (vacuous property?)')
+    rep.add_tlc(res, cfg + ' (expected violation: ' +
+                ','.join(sorted(set(res.violated) & set(expected))) + ')')
+
+
 def adoption_chain(it, names=None):
     """[(tokens, mutator)] for every write of the run, in order; `names` maps
     a hierarchical task description to the mutator class name."""
